@@ -270,7 +270,7 @@ def handle (line : String) : String :=
   | ["handover", file, cmds, _, _] =>
     -- consumer side (utils.NewRDBLoader = C01's loader pipeline) on the RDB followed by the command bytes, whatever
     -- the delivery: what it has taken when its channel closes, and what is left for the command parser
-    -- (for a well-formed file: exactly the file, exactly the commands — Properties.C01.parse_exact, which holds for ANY bytes behind the checksum)
+    -- (for a well-formed file: exactly the file, exactly the commands — Properties.C05.rdb_consumer_exact, rdb_consumer_takes_n)
     match ofHex file, parseBytes cmds with
     | some file, some cmds =>
       let all := file ++ cmds
